@@ -3,9 +3,14 @@ Driver of C01: case {"cfg":…, "rules":[…], "reqs":[…]} (format: RioModel/M
   m : per request, the sorted ids (duplicates kept) returned by the layered model
       `Router.matchReq (Router.build R) q`
   s : per request, the sorted ids of `R.filter (sat R · q)` – the flat specification
+The same rule list is also run through the tower over the REAL regex-tree model (`towerTOps`,
+W1's `Item` trees and `stdEngine` on the rendered regex strings); a case on which it answers
+differently from the specification-level model is reported as an error (so it shows up as a
+correspondence failure): this ties the composed theorems `match_exact_tree…` to the code as well.
 -/
 import Drivers.Common
 import RioModel.Model.RouterJson
+import RioModel.Model.RouterTreeParse
 open Lean Rio.Router
 
 def handle (j : Json) : Except String Json := do
@@ -17,6 +22,11 @@ def handle (j : Json) : Except String Json := do
   let S := Router.build E R
   let qs := reqs.map (mkReq cfg)
   let m := qs.map (fun q => J.ids (sortedIds (S.matchReq E q)))
+  let T := tenvOf cfg
+  let ST := RouterG.build (towerTOps T) R
+  let mt := qs.map (fun q => J.ids (sortedIds (RouterG.matchReq (towerTOps T) ST q)))
+  if Json.arr mt.toArray != Json.arr m.toArray then
+    throw s!"tree-level model {Json.compress (Json.arr mt.toArray)} differs from the specification-level model {Json.compress (Json.arr m.toArray)}"
   let s := qs.map (fun q => J.ids (sortedIds (R.filter (fun r => sat E R r q))))
   return Json.mkObj [("m", Json.arr m.toArray), ("s", Json.arr s.toArray)]
 
